@@ -105,3 +105,14 @@ def fclose(have, want, rel=1e-6, abs_=1e-9):
         return abs(have - want) <= rel * abs(want) + abs_
     except TypeError:
         return False
+
+
+def shared_vars(rules):
+    """var_of[i]: identical (head, body) rules share one indeterminate (so that two
+    rule objects are equal by value, as duplicate rules with equal numeric weights are).
+    Returns None when the grammar has no duplicate rule."""
+    first = {}
+    var_of = []
+    for i, r in enumerate(rules):
+        var_of.append(first.setdefault(r, i))
+    return var_of if len(first) < len(rules) else None
